@@ -498,7 +498,8 @@ pub struct LongAny {
 	pub cfg: CfgCase,
 	pub seed: u64,
 	pub steps: u64,
-	/// 0: the regime stream of the other long checks; 1..: persistent trends with a zig-zag (up, down, long saw-tooth)
+	/// 0: the regime stream of the other long checks; 1..3: persistent trends with a zig-zag (up, down, long saw-tooth);
+	/// 4, 5: strictly monotone rise / fall of at least 70 000 bars
 	pub shape: u8,
 	pub zig_period: u8,
 }
@@ -508,6 +509,13 @@ fn trend_close(shape: u8, zp: u64, steps: u64, i: u64, r: f64) -> f64 {
 	let step = 0.05;
 	let ph = i % zp;
 	let tri = if zp == 2 { if ph == 0 { -1.0 } else { 1.0 } } else { 1.0 - 2.0 * (ph as f64 / (zp - 1) as f64) };
+	if shape >= 4 {
+		// strictly monotone: every bar makes a new extreme, nothing ever pulls back (a trend-following state such
+		// as the parabolic SAR's count of new extremes is never reset)
+		let up = shape == 4;
+		let k = if up { i } else { steps - i };
+		return gen::vt(100.0 + step * k as f64 + step * 0.25 * r * if up { 1.0 } else { -1.0 });
+	}
 	let level = match shape {
 		1 => 100.0 + step * i as f64,
 		2 => 100.0 + step * (steps - i) as f64,
@@ -537,6 +545,8 @@ fn run_long_any(c: &LongAny, st: &mut Stats) -> CaseResult {
 		let o = if t == 0 { cl } else { prev };
 		let w = match (r >> 3) % 3 {
 			0 => 0.0,
+			// (steady shapes: wicks far smaller than one step, so that no bar reaches back to a trailing stop)
+			_ if c.shape >= 4 => cl * 1e-7,
 			1 => cl * 1e-4,
 			_ => cl * 1e-3,
 		};
@@ -643,13 +653,14 @@ pub fn def(tier: Tier) -> PropertyDef {
 	for name in cfggen::NAMES {
 		let opts = GenOpts { wide: false, price_sources: true, nonneg_ma: matches!(name, "RelativeStrengthIndex" | "StochasticOscillator" | "SMIErgodicIndicator" | "Envelopes" | "KeltnerChannel") };
 		let st = tier.pick(steps / 10, steps / 25);
-		let strat = (cfggen::config_strategy(name, opts), any::<u64>(), 0u8..4, 2u8..=5).prop_map(move |(cfg, seed, shape, zig_period)| LongAny { cfg, seed, steps: st, shape, zig_period });
-		checks.push(pt(&format!("long_any_{name}"), tier.pick(6, 8), strat, run_long_any));
+		// steady shapes (4, 5) run past 2^16 bars in both tiers
+		let strat = (cfggen::config_strategy(name, opts), any::<u64>(), 0u8..6, 2u8..=5).prop_map(move |(cfg, seed, shape, zig_period)| LongAny { cfg, seed, steps: if shape >= 4 { st.max(70_000) } else { st }, shape, zig_period });
+		checks.push(pt(&format!("long_any_{name}"), tier.pick(9, 12), strat, run_long_any));
 	}
 	PropertyDef {
 		id: "C07",
 		level: "exploration",
-		rule: "Procedural streams (pure function of a (seed, regime) record; regimes: random walk, exactly flat, 10^+-k scale jump, monotone drift, integer lattice, sign flip) of 3*10^5 (thorough 10^7) steps for every finite-window and selection method at lengths {1,2,3,5,14,100,254}, 10^5 (3.3*10^6) steps for the reversal detectors, 7.5*10^4 (2.5*10^6) candles for the finite-memory indicators (CMO, MFI, RSI, SAR named by the property and nine others) with window-type averages. Oracles: (i) selections/positions/reversals compared EXACTLY with the from-scratch definition on a ring of recent inputs - every step of the first 2*256+n, bands around every multiple of 2^8 and 2^16, every 997th step, the last 1000 steps (reversals: every step); (ii) arithmetic outputs against the from-scratch formula at geometrically spaced checkpoints and over the last 3n steps, allowance K*eps*(n+t)*M_t*g; (iii) a fresh instance primed with the last window (2n for TRIMA/HMA; 3*max_period+8 candles for indicators) must agree with the veteran from then on. (iv) every one of the 37 indicators with generated configurations (any average kind) on streams of 3*10^4 (thorough 4*10^5) candles - the regime stream, or a persistent up / down / saw-tooth trend carrying a zig-zag of period 2..5 that keeps oscillators on one side of zero while run, peak and bars-since counters keep counting: at EVERY step the documented ranges and orderings (C12 predicates, allowance for the true age) and every signal recomputed from the returned values (C06 detectors, exact). Non-trivial = a case with at least one late comparison (t > 1024) after >= 2 regime changes; for (iv) a stream longer than 1024 candles.",
+		rule: "Procedural streams (pure function of a (seed, regime) record; regimes: random walk, exactly flat, 10^+-k scale jump, monotone drift, integer lattice, sign flip) of 3*10^5 (thorough 10^7) steps for every finite-window and selection method at lengths {1,2,3,5,14,100,254}, 10^5 (3.3*10^6) steps for the reversal detectors, 7.5*10^4 (2.5*10^6) candles for the finite-memory indicators (CMO, MFI, RSI, SAR named by the property and nine others) with window-type averages. Oracles: (i) selections/positions/reversals compared EXACTLY with the from-scratch definition on a ring of recent inputs - every step of the first 2*256+n, bands around every multiple of 2^8 and 2^16, every 997th step, the last 1000 steps (reversals: every step); (ii) arithmetic outputs against the from-scratch formula at geometrically spaced checkpoints and over the last 3n steps, allowance K*eps*(n+t)*M_t*g; (iii) a fresh instance primed with the last window (2n for TRIMA/HMA; 3*max_period+8 candles for indicators) must agree with the veteran from then on. (iv) every one of the 37 indicators with generated configurations (any average kind) on streams of 3*10^4 (thorough 4*10^5) candles - the regime stream, a persistent up / down / saw-tooth trend carrying a zig-zag of period 2..5, or a strictly monotone rise / fall of >= 7*10^4 bars (every bar a new extreme), which keep oscillators on one side of zero while run, peak and bars-since counters keep counting: at EVERY step the documented ranges and orderings (C12 predicates, allowance for the true age) and every signal recomputed from the returned values (C06 detectors, exact). Non-trivial = a case with at least one late comparison (t > 1024) after >= 2 regime changes; for (iv) a stream longer than 1024 candles.",
 		assumptions: vec!["K = 256; a failure of (ii)/(iii) is classified by whether it stays inside the quadratic worst-case bound of a double accumulator (known-finding class for WMA-type drift) or not".into()],
 		exhaustive: false,
 		checks,
